@@ -23,6 +23,7 @@ class C02(E1Check):
         self.after_vocab = [a for a in atoms if a[0] != "noop" and a[1] in ("time", "tags", "measurement") or a[0] == "regex"]
         self.after_vocab = self.after_vocab + [("not", a) for a in self.after_vocab[::3]]
         self._probes = None
+        self.ivocab = [a for a in atoms if a[0] in ("cmp", "exists")][::3]
 
     def rule(self):
         return (
@@ -98,6 +99,9 @@ class C02(E1Check):
             out.append(viol("remove-count", sig + "|count", observed=T.outcome, expected=exp_out))
         if nsel == 0 and T.pre_bytes is not None and T.pre_bytes != T.post_bytes:
             out.append(viol("noop-remove-bytes", sig + "|noop-changes-file", observed=T.post_bytes, expected=T.pre_bytes))
+        if not out and T.post_valid and self.is_probe(T.op):
+            # the successor of a probe is not explored further: at least its index must equal a rebuild
+            out += [dict(v, kind="transition") for v in observers.index_equiv("C02", T.world.db, T.post, self.ivocab, counters, tag=f"|after-{k}")]
         return out
 
     def observe(self, w, stored, history, cfg, counters):
